@@ -159,7 +159,7 @@ func (s Segment) Recover(params index.Params) error {
 		if err := os.Rename(restore.Path, log.Path); err != nil {
 			return fmt.Errorf("restore log rename: %w", err)
 		}
-		verifhook.FS("rename", restore.Path, 0, 0)
+		verifhook.FS("rename", restore.Path+"\x00"+log.Path, 0, 0)
 	} else {
 		if err := os.Remove(restore.Path); err != nil {
 			return fmt.Errorf("restore log delete: %w", err)
@@ -358,7 +358,7 @@ func (s Segment) Migrate(mversion message.Version, iversion index.Version, param
 	if err := os.Rename(migratedLog.Path, s.Log); err != nil {
 		return fmt.Errorf("migrate log rename: %w", err)
 	}
-	verifhook.FS("rename", migratedLog.Path, 0, 0)
+	verifhook.FS("rename", migratedLog.Path+"\x00"+s.Log, 0, 0)
 	if err := index.Write(s.Index, s.Offset, iversion, params, migratedIndex); err != nil {
 		return fmt.Errorf("migrate index write: %w", err)
 	}
@@ -374,12 +374,12 @@ func (olds Segment) Rename(news Segment) error {
 	if err := os.Rename(olds.Log, news.Log); err != nil {
 		return fmt.Errorf("rename log rename: %w", err)
 	}
-	verifhook.FS("rename", olds.Log, 0, 0)
+	verifhook.FS("rename", olds.Log+"\x00"+news.Log, 0, 0)
 
 	if err := os.Rename(olds.Index, news.Index); err != nil {
 		return fmt.Errorf("rename index rename: %w", err)
 	}
-	verifhook.FS("rename", olds.Index, 0, 0)
+	verifhook.FS("rename", olds.Index+"\x00"+news.Index, 0, 0)
 
 	if err := news.syncDir(); err != nil {
 		return fmt.Errorf("rename sync dir: %w", err)
@@ -398,11 +398,11 @@ func (olds Segment) Override(news Segment) error {
 	if err := os.Rename(olds.Log, news.Log); err != nil {
 		return fmt.Errorf("override log rename: %w", err)
 	}
-	verifhook.FS("rename", olds.Log, 0, 0)
+	verifhook.FS("rename", olds.Log+"\x00"+news.Log, 0, 0)
 	if err := os.Rename(olds.Index, news.Index); err != nil {
 		return fmt.Errorf("override index rename: %w", err)
 	}
-	verifhook.FS("rename", olds.Index, 0, 0)
+	verifhook.FS("rename", olds.Index+"\x00"+news.Index, 0, 0)
 
 	if err := news.syncDir(); err != nil {
 		return fmt.Errorf("override sync dir: %w", err)
